@@ -527,6 +527,7 @@ func checkC10(r *Run) {
 		mpaths = append(mpaths, append([]byte("INVITE sip:a SIP/2.0\r\n"), p...))
 	}
 	exploreSpaces(r, msgDrv, []space{{name: "chunked/messages", gen: one(mpaths), cfgs: []Cfg{{HdrCap: -1, ValCap: -1}, {HdrCap: -1, ValCap: -1, Flags: 1}}, beyondErr: 1, beyondOk: 1, split: 1}}, or, nil)
+	c10Split(r)
 }
 
 func init() {
